@@ -258,6 +258,36 @@ where
         + Sync
         + 'static,
 {
+    // A patch that rewinds the event log replaces every event after
+    // the target commit. The client computed the patch from the events
+    // it fetched beforehand; if another device has pushed events in the
+    // meantime they are not part of the patch and would be discarded by
+    // the rewind, so the request must be refused.
+    if let Some(commit) = &req.commit {
+        let (current, head) =
+            records_after::<_, E>(&req.log_type, storage, commit).await?;
+        let discards_events = current.iter().any(|record| {
+            !req.patch.iter().any(|patched| {
+                patched.commit() == record.commit()
+                    && patched.time() == record.time()
+            })
+        });
+        if discards_events {
+            tracing::warn!(
+                num_records = ?current.len(),
+                "events_patch::stale_rewind");
+            return Ok((
+                PatchResponse {
+                    checked_patch: CheckedPatch::Conflict {
+                        head,
+                        contains: None,
+                    },
+                },
+                MergeOutcome::default(),
+            ));
+        }
+    }
+
     let (checked_patch, outcome, records) = match &req.log_type {
         EventLogType::Identity => {
             let patch = Patch::<WriteEvent>::new(req.patch);
@@ -392,6 +422,67 @@ where
     }
 
     Ok((PatchResponse { checked_patch }, outcome))
+}
+
+/// Event records after a commit and the current head of an event log.
+async fn records_after<S, E>(
+    log_type: &EventLogType,
+    storage: &S,
+    commit: &sos_core::commit::CommitHash,
+) -> std::result::Result<(Vec<EventRecord>, sos_core::commit::CommitProof), E>
+where
+    S: SyncStorage,
+    E: std::error::Error
+        + std::fmt::Debug
+        + From<<S as StorageEventLogs>::Error>
+        + From<sos_backend::Error>
+        + Send
+        + Sync
+        + 'static,
+{
+    Ok(match log_type {
+        EventLogType::Identity => {
+            let log = storage.identity_log().await?;
+            let event_log = log.read().await;
+            (
+                event_log.diff_records(Some(commit)).await?,
+                event_log.tree().head().map_err(sos_backend::Error::from)?,
+            )
+        }
+        EventLogType::Account => {
+            let log = storage.account_log().await?;
+            let event_log = log.read().await;
+            (
+                event_log.diff_records(Some(commit)).await?,
+                event_log.tree().head().map_err(sos_backend::Error::from)?,
+            )
+        }
+        EventLogType::Device => {
+            let log = storage.device_log().await?;
+            let event_log = log.read().await;
+            (
+                event_log.diff_records(Some(commit)).await?,
+                event_log.tree().head().map_err(sos_backend::Error::from)?,
+            )
+        }
+        #[cfg(feature = "files")]
+        EventLogType::Files => {
+            let log = storage.file_log().await?;
+            let event_log = log.read().await;
+            (
+                event_log.diff_records(Some(commit)).await?,
+                event_log.tree().head().map_err(sos_backend::Error::from)?,
+            )
+        }
+        EventLogType::Folder(id) => {
+            let log = storage.folder_log(id).await?;
+            let event_log = log.read().await;
+            (
+                event_log.diff_records(Some(commit)).await?,
+                event_log.tree().head().map_err(sos_backend::Error::from)?,
+            )
+        }
+    })
 }
 
 async fn rollback_rewind<S, E>(
